@@ -787,14 +787,22 @@ impl<'tcx> Cx<'tcx> {
         let tcx = self.tcx;
         let def_id = ldid.to_def_id();
         let kind = tcx.def_kind(def_id);
-        if !matches!(kind, DefKind::Fn | DefKind::AssocFn | DefKind::Closure | DefKind::SyntheticCoroutineBody) {
+        let is_const_item = matches!(kind, DefKind::Const { .. } | DefKind::AssocConst { .. });
+        if is_const_item {
+            // a trait's associated const without a default has no body
+            let has_body = tcx.hir_maybe_body_owned_by(ldid).is_some();
+            if !has_body {
+                return None;
+            }
+        } else if !matches!(kind, DefKind::Fn | DefKind::AssocFn | DefKind::Closure | DefKind::SyntheticCoroutineBody) {
             return None;
         }
         self.cur_env = Some(TypingEnv::post_analysis(tcx, def_id));
-        let body: &Body<'tcx> = tcx.optimized_mir(def_id);
+        let body: &Body<'tcx> = if is_const_item { tcx.mir_for_ctfe(def_id) } else { tcx.optimized_mir(def_id) };
         let mut o = self.def_header(def_id);
         let is_closure = tcx.is_closure_like(def_id);
         o.push(("closure", J::Bool(is_closure)));
+        o.push(("const_item", J::Bool(is_const_item)));
         o.push(("coroutine", J::Bool(tcx.is_coroutine(def_id))));
         if is_closure {
             o.push(("parent", J::s(self.key(tcx.parent(def_id)))));
